@@ -856,6 +856,56 @@ static void opLate(const HxLine& l)
   hxEndLine();
 }
 
+// eofjoin <order> <mask> <n> <code>: the child reads its redirected stdin to end-of-file, THEN writes <n> bytes to every
+// redirected output stream and exits with <code>; the parent writes three bytes and, without closing stdin and without
+// reading, calls join() (order join) or lets the destructor do it (order dtor).  join() itself has to end the child's input;
+// whatever the child writes, it writes after join() was entered.
+static void opEofJoin(const HxLine& l)
+{
+  const char* order = l.tok[1];
+  uint mask = ((uint)hxNum(l, 2) & 3) | 4;
+  char a2[16], a3[16], a5[16];
+  snprintf(a2, sizeof(a2), "%u", mask);
+  snprintf(a3, sizeof(a3), "%lu", hxNum(l, 3));
+  snprintf(a5, sizeof(a5), "%lu", hxNum(l, 4));
+  char* argv[] = {(char*)childPath, (char*)"@io", a2, a3, (char*)"0", a5};
+  Capture cap(false);
+  bool diverted = !(mask & 1);
+  if(diverted && !divertStdout())
+  {
+    printf("FAULT tmpfile");
+    hxEndLine();
+    return;
+  }
+  Process* p = new Process;
+  bool ok = p->open(String(childPath, childPathLen), 6, argv, mask);
+  uint pipes = pipesOf(*p);
+  long written = ok ? (long)p->write("abc", 3) : -1;
+  bool joined = false;
+  uint32 exitCode = 9999;
+  uint after = 0;
+  if(ok && strcmp(order, "join") == 0)
+  {
+    joined = p->join(exitCode);
+    after = pipesOf(*p) | (p->pid ? 8u : 0u);
+  }
+  delete p;
+  if(diverted)
+    restoreStdout(cap);
+  printf("ej ok=%d pipes=%u exit=", ok ? 1 : 0, pipes);
+  if(joined)
+    printf("%u", (unsigned)exitCode);
+  else
+    fputc('-', stdout);
+  printf(" | written=%ld joined=%d ", written, joined ? 1 : 0);
+  if(cap.out.length())
+    fwrite((const char*)cap.out, 1, cap.out.length(), stdout);
+  else
+    printf("in=-");
+  printf(" after=%u", after);
+  hxEndLine();
+}
+
 // sig <mask> <signal>: what join() reports for a child that is terminated by a signal
 static void opSig(const HxLine& l)
 {
@@ -1189,6 +1239,8 @@ int main(int argc, char** argv)
       opLate(l);
     else if(hxIs(l, "sig", 2))
       opSig(l);
+    else if(hxIs(l, "eofjoin", 4))
+      opEofJoin(l);
     else if(hxIs(l, "killbusy", 1))
       opKillBusy(l);
     else if(l.ntok >= 2 && strcmp(l.tok[0], "env") == 0)
